@@ -579,3 +579,176 @@ Proof.
   - lia.
   - apply sorted_remove. assumption.
 Qed.
+
+(* ------------------------------------------------------------------ serialisation round trip *)
+Lemma get_le_le n k v r : N.to_nat n = k -> get_le n (le k v ++ r) = (v mod 256 ^ N.of_nat k, r).
+Proof.
+  intros. unfold get_le. assert (len (le k v) = n) by (rewrite len_le; lia).
+  rewrite take_app_l by lia. rewrite take_all by lia. rewrite drop_app_l by lia.
+  rewrite drop_all by lia. rewrite unle_le. reflexivity.
+Qed.
+Lemma get_le_le8 v r : get_le 8 (le 8 v ++ r) = (v mod 18446744073709551616, r).
+Proof. apply (get_le_le 8 8). reflexivity. Qed.
+Lemma get_le_le4 v r : get_le 4 (le 4 v ++ r) = (v mod 4294967296, r).
+Proof. apply (get_le_le 4 4). reflexivity. Qed.
+Lemma get_le_le2 v r : get_le 2 (le 2 v ++ r) = (v mod 65536, r).
+Proof. apply (get_le_le 2 2). reflexivity. Qed.
+Lemma get_le_one v r : get_le 1 ([v] ++ r) = (v, r).
+Proof. unfold get_le, take, drop. change (N.to_nat 1) with 1%nat. cbn [app firstn skipn unle]. f_equal. lia. Qed.
+
+Lemma len_header_body h : len (header_body h) = 142.
+Proof. reflexivity. Qed.
+
+Definition m64 (x : N) : N := x mod 18446744073709551616.
+
+Lemma parse_header_body h :
+  parse_header (header_body h) =
+  Ok (mkRH 8 0 0 65536 (m64 (h_free h)) (m64 (h_mansize h)) (m64 (h_alloc h)) (m64 (h_manoff h)) (m64 (h_nobj h))
+           2 (m64 (h_start h)) (m64 (h_maxdb h)) 16 (m64 (h_root h)) (h_rows h mod 65536)).
+Proof.
+  unfold parse_header, header_body.
+  change (take 4 (SIG_FRHP ++ ?x)) with SIG_FRHP.
+  change (bytes_eqb SIG_FRHP SIG_FRHP) with true. cbn [negb].
+  change (drop 4 (SIG_FRHP ++ ?x)) with x.
+  rewrite get_le_one. change (0 =? 0) with true. cbn [negb].
+  rewrite get_le_le2, get_le_le2, get_le_one, get_le_le4.
+  rewrite !get_le_le8. rewrite get_le_le2. rewrite !get_le_le8. rewrite !get_le_le2. rewrite get_le_le8.
+  rewrite <- (app_nil_r (le 2 (h_rows h))). rewrite get_le_le2.
+  reflexivity.
+Qed.
+
+Lemma take_zeros a b : a <= b -> take a (zeros b) = zeros a.
+Proof.
+  intros. replace b with (a + (b - a)) by lia. rewrite zeros_add. rewrite take_app_l by (rewrite len_zeros; lia).
+  apply take_all. rewrite len_zeros. lia.
+Qed.
+
+(* the serialised direct block when the objects fit the usable space: nothing is cut off *)
+Lemma encode_dblock_shape b :
+  19 <= db_size b -> len (db_objs b) <= db_size b - 19 ->
+  exists c, encode_dblock b =
+    (SIG_FHDB ++ [0]) ++ le 8 (db_hdraddr b) ++ le 2 (db_boff b)
+    ++ (db_objs b ++ zeros (db_size b - 19 - len (db_objs b))) ++ le 4 c.
+Proof.
+  intros Hs Ho. unfold encode_dblock, PREFIX, CKSUM.
+  set (pre := SIG_FHDB ++ [0] ++ le 8 (db_hdraddr b) ++ le 2 (db_boff b)).
+  assert (Hpre : len pre = 15) by reflexivity.
+  rewrite copy_into_zeros by lia.
+  set (body := take (db_size b - 4) (pre ++ db_objs b ++ zeros (db_size b - 15 - len (db_objs b)))).
+  assert (Hbody : body = pre ++ db_objs b ++ zeros (db_size b - 19 - len (db_objs b))).
+  { unfold body. rewrite take_app_r by lia. f_equal. rewrite Hpre.
+    rewrite take_app_r by lia. f_equal. rewrite take_zeros by lia. f_equal. lia. }
+  exists (crc32 body). rewrite Hbody at 1. unfold pre. rewrite <- !app_assoc. reflexivity.
+Qed.
+
+Lemma len_encode_dblock b :
+  19 <= db_size b -> len (db_objs b) <= db_size b - 19 -> len (encode_dblock b) = db_size b.
+Proof.
+  intros Hs Ho. destruct (encode_dblock_shape b Hs Ho) as [c ->].
+  rewrite !len_app, !len_le, len_zeros. change (len SIG_FHDB) with 4. change (len [0]) with 1. lia.
+Qed.
+
+Lemma len_encode_header h : len (encode_header h) = 146.
+Proof. reflexivity. Qed.
+
+(* file primitives *)
+Lemma len_write_at f a d : len (write_at f a d) = N.max (len f) (a + len d).
+Proof.
+  unfold write_at. destruct (N.ltb_spec (len f) (a + len d)).
+  - rewrite !len_app, len_take, len_drop, len_app, len_zeros. lia.
+  - rewrite !len_app, len_take, len_drop. lia.
+Qed.
+Lemma slice_write_at_same f a d : slice (write_at f a d) a (len d) = d.
+Proof.
+  unfold write_at. set (f' := if len f <? a + len d then f ++ zeros (a + len d - len f) else f).
+  assert (a + len d <= len f').
+  { unfold f'. destruct (N.ltb_spec (len f) (a + len d)); [rewrite len_app, len_zeros|]; lia. }
+  apply splice_at. assumption. reflexivity.
+Qed.
+Lemma slice_write_at_before f a d o m :
+  o + m <= a -> o + m <= len f -> slice (write_at f a d) o m = slice f o m.
+Proof.
+  intros. unfold write_at. set (f' := if len f <? a + len d then f ++ zeros (a + len d - len f) else f).
+  assert (a + len d <= len f').
+  { unfold f'. destruct (N.ltb_spec (len f) (a + len d)); [rewrite len_app, len_zeros|]; lia. }
+  rewrite splice_before; try assumption; try reflexivity.
+  unfold f'. destruct (N.ltb_spec (len f) (a + len d)); [|reflexivity]. apply slice_app_l. assumption.
+Qed.
+
+Lemma slice_slice {A} (l : list A) a n o m : o + m <= n -> a + n <= len l -> slice (slice l a n) o m = slice l (a + o) m.
+Proof.
+  intros. unfold slice at 2. rewrite slice_take by lia. unfold slice. rewrite drop_drop. f_equal. f_equal. lia.
+Qed.
+
+Lemma slice_mid' {A} (a b c : list A) off n : len a = off -> len b = n -> slice (a ++ b ++ c) off n = b.
+Proof. intros <- <-. apply slice_mid. Qed.
+
+Lemma m64_small x : x < 18446744073709551616 -> m64 x = x.
+Proof. intros. unfold m64. apply N.mod_small. assumption. Qed.
+
+(* what LoadFromFile rebuilds from the bytes written by WriteToFile / WriteAt at addresses 2048 / 2194 *)
+Definition reloaded (bs : N) (h : heap) : heap :=
+  let objs := db_objs (h_blk h) in
+  mkHeap (h_free h) bs bs (h_manoff h) (h_nobj h) bs bs 2194 0 (lensz_of bs MAX_OBJ)
+         (mkDB 2048 0 bs (objs ++ zeros (bs - 19 - len objs)) (h_manoff h)) None bs [] (Some (2048, 2194)).
+
+Lemma load_after_store bs h fs sp f :
+  bs_ok bs = true -> R bs h fs sp ->
+  let h1 := set_addrs h 2048 2194 in
+  load bs (write_at (write_at f 2048 (encode_header h1)) 2194 (encode_dblock (h_blk h1))) 2048 = Ok (reloaded bs h).
+Proof.
+  intros Hbs HR h1. pose proof (bs_ok_bounds bs Hbs) as [[Hb1 Hb2] Hcap]. destruct HR.
+  set (H := encode_header h1). set (B := encode_dblock (h_blk h1)).
+  set (f1 := write_at f 2048 H). set (f2 := write_at f1 2194 B).
+  assert (HlenH : len H = 146) by reflexivity.
+  assert (Hsz : db_size (h_blk h1) = bs) by (unfold h1; cbn [set_addrs h_blk db_size]; assumption).
+  assert (Hob : db_objs (h_blk h1) = db_objs (h_blk h)) by reflexivity.
+  assert (HlenB : len B = bs).
+  { unfold B. rewrite len_encode_dblock; rewrite ?Hsz, ?Hob; lia. }
+  assert (Hlf1 : len f1 = N.max (len f) 2194) by (unfold f1; rewrite len_write_at, HlenH; lia).
+  assert (Hlf2 : len f2 = N.max (len f1) (2194 + bs)) by (unfold f2; rewrite len_write_at, HlenB; reflexivity).
+  unfold load. change ((2048 =? 0) || (2048 =? ALL_ONES)) with false. cbv iota.
+  unfold read_at, HDR_BODY. destruct (N.leb_spec (2048 + 142) (len f2)); [|lia].
+  (* the header bytes *)
+  assert (Hhb : slice f2 2048 142 = header_body h1).
+  { unfold f2. rewrite slice_write_at_before by lia.
+    replace (slice f1 2048 142) with (slice (slice f1 2048 146) 0 142) by (rewrite slice_slice by lia; reflexivity).
+    unfold f1. rewrite <- HlenH. rewrite slice_write_at_same. unfold H, encode_header.
+    change 142 with (len (header_body h1)). apply slice_exact. }
+  rewrite Hhb, parse_header_body.
+  cbn [r_rows r_root r_start r_free r_mansize r_alloc r_manoff r_nobj r_maxdb r_maxobj].
+  assert (Hrows : h_rows h1 = 0) by assumption. rewrite Hrows. change (0 mod 65536 =? 0) with true. cbn [negb].
+  assert (Hroot : h_root h1 = 2194) by reflexivity. rewrite Hroot. change (m64 2194) with 2194.
+  assert (Hst : h_start h1 = bs) by assumption. rewrite Hst. rewrite (m64_small bs) by lia.
+  (* the direct block *)
+  unfold read_dblock_w. change ((2194 =? 0) || (2194 =? ALL_ONES)) with false. cbv iota.
+  unfold read_at. destruct (N.leb_spec (2194 + bs) (len f2)); [|lia].
+  assert (HB : slice f2 2194 bs = B) by (unfold f2; rewrite <- HlenB; apply slice_write_at_same).
+  rewrite HB.
+  destruct (encode_dblock_shape (h_blk h1)) as [c Hshape]; [rewrite Hsz; lia|rewrite Hsz, Hob; lia|].
+  fold B in Hshape. rewrite Hsz, Hob in Hshape.
+  assert (Hha : db_hdraddr (h_blk h1) = 2048) by reflexivity.
+  assert (Hbo : db_boff (h_blk h1) = 0) by assumption. rewrite Hha, Hbo in Hshape.
+  set (objs := db_objs (h_blk h)) in *. set (data := objs ++ zeros (bs - 19 - len objs)) in *.
+  assert (Hld : len data = bs - 19) by (unfold data; rewrite len_app, len_zeros; lia).
+  rewrite Hshape.
+  change (take 4 ((SIG_FHDB ++ [0]) ++ ?x)) with SIG_FHDB.
+  change (bytes_eqb SIG_FHDB SIG_FHDB) with true. cbn [negb].
+  change (slice ((SIG_FHDB ++ [0]) ++ ?x) 4 1) with [0]. change (unle [0] =? 0) with true. cbn [negb].
+  rewrite (slice_mid' (SIG_FHDB ++ [0]) (le 8 2048)) by reflexivity.
+  change (unle (le 8 2048) =? 2048) with true. cbn [negb].
+  rewrite (app_assoc (SIG_FHDB ++ [0])).
+  rewrite (slice_mid' ((SIG_FHDB ++ [0]) ++ le 8 2048) (le 2 0)) by reflexivity.
+  rewrite (app_assoc ((SIG_FHDB ++ [0]) ++ le 8 2048)).
+  unfold PREFIX, CKSUM.
+  rewrite (slice_mid' (((SIG_FHDB ++ [0]) ++ le 8 2048) ++ le 2 0) data); [|reflexivity|lia].
+  change (unle (le 8 2048)) with 2048. change (unle (le 2 0)) with 0.
+  unfold reloaded. fold objs data.
+  assert (Hmd : h_maxdb h1 = bs) by assumption. assert (Hms : h_mansize h1 = bs) by assumption.
+  assert (Hal : h_alloc h1 = bs) by assumption.
+  assert (Hfr : h_free h1 = h_free h) by reflexivity. assert (Hmo : h_manoff h1 = h_manoff h) by reflexivity.
+  assert (Hno : h_nobj h1 = h_nobj h) by reflexivity.
+  rewrite Hmd, Hms, Hal, Hfr, Hmo, Hno. rewrite !(m64_small bs) by lia.
+  rewrite (m64_small (h_free h)) by lia. rewrite (m64_small (h_manoff h)) by lia. rewrite (m64_small (h_nobj h)) by lia.
+  reflexivity.
+Qed.
